@@ -235,6 +235,13 @@ func (m *Module) start(reports chan *report) {
 				fmt.Sprintf("Starting module %s failed", m.Name),
 				fmt.Sprintf("Failed to start module: %s", err.Error()),
 			)
+			// A module that failed to start is not running: return it to the
+			// prepared state. Left in StatusStarting it would never be stopped or
+			// retried and would block the shutdown of all its dependencies.
+			m.Lock()
+			m.status = StatusOffline
+			m.Unlock()
+			m.notifyOfChange()
 		} else {
 			m.Lock()
 			verifEvent("pre:online", m.Name)
